@@ -11,3 +11,4 @@ import DsdVerif.Props.C19Forms
 import DsdVerif.Props.C19FormsEx
 import DsdVerif.Props.C19Reject
 import DsdVerif.Props.C19RejectEx
+import DsdVerif.Props.C19Indent
